@@ -88,6 +88,16 @@ CLAIMED = {
         technique="metamorphic pairs of real runs decided by a TLC trace specification (MetaTrace.tla)",
         design_ref="4/C29",
     ),
+    "C17": dict(
+        level="exploration",
+        text="Real quantum-jump trajectories of emu-mps (2-4 atoms; relaxation, dephasing, depolarizing, effective 2x2 noise, leakage with 3x3 operators) are run with fixed seeds; "
+             "TrajTrace.tla decides per-trajectory atoms (finished, values in physical range) and the aggregate atom: the trajectory average equals the dense Lindblad master-equation "
+             "value within z*sqrt(ref(1-ref)/n) + z^2/(3n) + systematic(dt), z from a family-wise error rate of 1e-9.",
+        note="Statistical acceptance with a rigorous variance bound, hence low power at 128 trajectories (quick) - detects gross errors; 1000 trajectories in the thorough tier. "
+             "Reference uses the emulator's jump-operator list (C24 decides that list). Stepping structure of each trajectory is C18's subject.",
+        technique="seeded statistical comparison of real trajectories with a dense master-equation reference, decided by a TLC trace specification (TrajTrace.tla)",
+        design_ref="4/C17",
+    ),
 }
 PENDING_REASON = "check not built yet in this round (planned in DESIGN.md section 4); not claimed until it runs"
 NOT_APPLICABLE = {}
